@@ -23,10 +23,6 @@ IMPORTS = "From PV Require Import C12.Model C12.Spec.\n"
 FINDINGS = {
     "F9": dict(in_q=True, what="validate_spect_data_set(ds, fix) with sos/eos configured on ds writes the "
                "repaired reference back WITH the symbols (they land on disk and are doubled on the next load)"),
-    "F13": dict(in_q=True, what="get-torch-spect-data-dir-info reports total_tokens -1 (not 0) when ref/ exists "
-                "and every transcript is empty"),
-    "F14": dict(in_q=True, what="get-torch-spect-data-dir-info reports rcount_<i> -1 as soon as one segment of "
-                "token i is empty (start == end), although the boundaries are given and valid"),
     "F10": dict(in_q=False, what="a data set built with suppress_alis=True makes validate_spect_data_set raise "
                 "ValueError (2-tuple unpacked into 3) on every non-empty directory"),
     "F11": dict(in_q=False, what="a data set built with tokens_only=True hides the boundaries from the validator "
@@ -830,10 +826,7 @@ def nontrivial(case, r=None):
 
 def classify(case, op, comp):
     cfg = case.get("cfg", {})
-    if comp == 2:
-        return "F13"
-    if comp == 3:
-        return "F14"
+    # F12 (--fix 0), F13 (total_tokens) and F14 (rcount of empty segments) are repaired in /repo; the model follows
     if comp == 0:
         if op["api"] == "cli":
             return None  # F12 (--fix 0 skipped validation) is repaired in /repo (0bbdd7f); the model validates
@@ -863,7 +856,7 @@ COMPONENTS = ["validation (raise/return and directory afterwards)", "report (all
 THEOREMS = ["c12_strict_accepts_iff_wellformed", "c12_strict_never_writes", "c12_fix_accepts_iff_repairable",
             "c12_fix_result_is_repair", "c12_fix_error_partial", "c12_fix_then_strict_passes", "c12_valid_never_touched",
             "c12_tolerance_exact_ali", "c12_tolerance_exact_ref", "c12_cli_like_validate",
-            "c12_cli_unvalidated_never_writes", "c12_info_is_recount_partial", "c12_info_after_fix_is_recount_partial"]
+            "c12_cli_unvalidated_never_writes", "c12_info_is_recount", "c12_info_after_fix_is_recount"]
 
 
 class Judge:
